@@ -13,7 +13,7 @@ def run(rep: Report, tier: str, only=None) -> None:
 	K = 'harness.c05_keys'
 	jobs += [
 		Job('O3.tree_key', K, 'tree_key_law', {}, t, 'S', 'SyntaxParserOfLark.__call__ twice over a store keyed by (cache key, identity): mtimes of the source and of the grammar are symbolic floats in [0, 4e9); str() of a float modelled as injective', ('source-edited', 'grammar-edited', 'unchanged', 'served-from-cache')),
-		Job('O3.proxy_key', K, 'proxy_key_law', {}, t, 'F', 'CacheProvider.get / CachedProxy in two consecutive processes over an in-memory file system: 3 cache keys x 3 source mtimes x 2 grammar mtimes each, with / without format', ('same', 'different')),
+		Job('O3.proxy_key', K, 'proxy_key_law', {}, t, 'F', 'CacheProvider.get / CachedProxy in two consecutive processes over an in-memory file system: 3 cache keys x 3 source mtimes x 2 grammar mtimes each, with / without format, base directory without / with further hyphens; a stored instance is served only for the same key and identity, and the file of an older identity is evicted', ('same', 'different', 'evicted')),
 		Job('O3.symbols_key.near', K, 'symbols_key_law', {'far': False}, t, 'F', 'Module.identity over every acyclic import graph of 4 modules (64) x edited module (4): the edited module is the module itself or a direct import', ('dist0', 'dist1')),
 		Job('O3.symbols_key.far', K, 'symbols_key_law', {'far': True}, t, 'F', 'Module.identity over every acyclic import graph of 4 modules (64) x edited module (4): the edited module is imported at distance >= 2; a failing step is demonstrated through the real pipeline before it is reported', ('dist2',)),
 	]
@@ -32,7 +32,7 @@ def run(rep: Report, tier: str, only=None) -> None:
 		rep.run_closed('O2.truncated_symbols', H, 'truncated_symbols_closed', {}, 'every truncation offset of a stored symbol table: SymbolDBPersistor.restore raises (closed)')
 	if not only or 'O4' in only:
 		HH = 'harness.c05_histories'
-		base = ['edit', 'back', 'disabled', 'clear', 'subsecond', 'backwards', 'first-disabled']
+		base = ['edit', 'back', 'disabled', 'clear', 'subsecond', 'backwards', 'first-disabled', 'mtime-reuse']
 		plan = [(shape, [f]) for shape in ('chain3', 'fan3', 'diamond') for f in base] + [('chain3', ['two']), ('chain3', ['two-one-run'])]
 		if tier == 'thorough':
 			plan += [(shape, [f]) for shape in ('fan3', 'diamond', 'chain4') for f in ('two', 'two-one-run')] + [('chain4', [f]) for f in base]
